@@ -45,9 +45,9 @@ SETTLE_TICKS = 100          # a legitimate exchange settles in < 15 ticks (measu
 PROTOS = [10, 11]
 METHODS = ['GET', 'HEAD']
 CONNS = ['none', 'keepalive', 'close']
-STATUSES = [200, 201, 204, 304, 404, 500]
+STATUSES = [200, 201, 203, 204, 205, 206, 300, 304, 404, 500]     # 203/205/206/300: on a sub-product only
 BODIES = ['none', 'empty', 'str', 'bytes', 'list', 'big', 'gen', 'genWithEmpty', 'genEmptyMid', 'genAllEmpty', 'genBig',
-          'file', 'trickle', 'stream', 'yield', 'error']
+          'file', 'fileCL', 'trickle', 'stream', 'yield', 'error']
 
 # how the request spells its Connection wish (the wish itself is cfg['conn'])
 SPELLING = {
@@ -92,7 +92,7 @@ def _enc(parts):
 EXPECTED = {
     'none': b'', 'empty': b'', 'str': STR.encode('utf-8'), 'bytes': BYTES, 'list': _enc(LIST),
     'big': BIG.encode('utf-8'), 'gen': _enc(GEN), 'genWithEmpty': _enc(GEN_EMPTY_FIRST),
-    'genEmptyMid': _enc(GEN_EMPTY_MID), 'genAllEmpty': b'', 'genBig': _enc(GEN_BIG), 'file': FILE, 'trickle': FILE,
+    'genEmptyMid': _enc(GEN_EMPTY_MID), 'genAllEmpty': b'', 'genBig': _enc(GEN_BIG), 'file': FILE, 'fileCL': FILE, 'trickle': FILE,
     'stream': _enc(PUSH), 'yield': _enc(YIELD),
 }
 
@@ -179,6 +179,10 @@ def make_app():
                 res.body = (c for c in list(src))
                 return res
             if body == 'file':
+                return open(self.filepath, 'rb')
+            if body == 'fileCL':
+                # a stream whose length the application announces itself (what tools.serve_file does)
+                res.headers['Content-Length'] = str(len(FILE))
                 return open(self.filepath, 'rb')
             if body == 'trickle':
                 return Trickle(FILE, TRICKLE_READS)
@@ -383,9 +387,9 @@ def run_sequence(cfgs, filepath):
 # histories, predictions, witnesses
 
 DEFECTS = ['head_noclose', 'bodiless_body', 'push_cl', 'empty_chunk', 'chunk_noterm', 'stream_sized',
-           'listwish', 'casewish', 'tailappend', 'shortread']
+           'listwish', 'casewish', 'tailappend', 'shortread', 'unsized205', 'lenclose', 'bodiless205']
 VARIANTS = ['tree', 'rfc']          # tree = the repository as it is: the intended algorithm + "listwish"
-TREE_DEFECTS = []
+TREE_DEFECTS = ['unsized205']      # known_findings.d/C15.json; [] once fixes/C15-205-framing.diff is committed
 
 
 def cfg_of(h):
